@@ -206,6 +206,18 @@ def step (st : St) (line : String) : St × Verdict :=
   match splitWs line with
   | "pupd" :: rest => (st, stepPupd rest)
   | "pcfg" :: _ => (st, .skip)
+  | "pstat" :: rest =>
+    -- a peer that delivered certificates the store did not have is recorded as a hit: its window moves towards
+    -- hits (hits+1, or misses-1 when hits are at the window size), never towards misses
+    let kv := parseKV rest
+    match geti kv "netnew", geti kv "hits0", geti kv "misses0", geti kv "hits1", geti kv "misses1", geti kv "window" with
+    | some nn, some h0, some m0, some h1, some m1, some w =>
+      if nn ≤ 0 then (st, .ok "pstat_nonew")
+      else
+        let expect : Int × Int := if h0 < w then (h0 + 1, m0) else if m0 > 0 then (h0, m0 - 1) else (h0, m0)
+        if (h1, m1) == expect then (st, .ok "pstat_hit")
+        else (st, .oracle s!"PEER-DELIVERED-NOT-A-HIT the only peer delivered {nn} new certificate(s) in this poll and its hit/miss window went from {h0}/{m0} to {h1}/{m1}, expected {expect.1}/{expect.2}: useful peers sink in the ranking")
+    | _, _, _, _, _, _ => (st, .bad "parse pstat")
   | "pinit" :: rest =>
     -- a poller created over a store that already holds certificates stands at the store's next instance: what is
     -- in the store before the subscriber starts is history, not progress (the first CatchUp feeds the predictor)
